@@ -103,6 +103,47 @@ func Exec(b *Behaviour, forceUntracked bool, noScribble ...bool) (nodes []tensor
 		}
 	}()
 	var passed []*bind.Passed
+	// every gradient tensor ever observed, with its elements: tensors are immutable values, gradient tensors included
+	type held struct {
+		t    tensor.Tensor
+		bits []uint64
+		of   int
+	}
+	var grads []held
+	seen := map[tensor.Tensor]bool{}
+	observe := func() {
+		for i, n := range nodes {
+			if g := n.Gradient(); g != nil && !seen[g] {
+				seen[g] = true
+				_, flat, e := bind.Read(g)
+				if e == nil {
+					b := make([]uint64, len(flat))
+					for k, v := range flat {
+						b[k] = math.Float64bits(v)
+					}
+					grads = append(grads, held{g, b, i + 1})
+				}
+			}
+		}
+	}
+	defer func() {
+		if err != nil {
+			return
+		}
+		for _, h := range grads {
+			_, flat, e := bind.Read(h.t)
+			if e != nil || len(flat) != len(h.bits) {
+				err = fmt.Errorf("a gradient tensor handed out earlier for tensor %d can no longer be read or changed size", h.of)
+				return
+			}
+			for k, v := range flat {
+				if math.Float64bits(v) != h.bits[k] {
+					err = fmt.Errorf("the gradient tensor handed out for tensor %d after an earlier back-propagation was modified in place (element %d: now %v)", h.of, k, v)
+					return
+				}
+			}
+		}
+	}()
 	for i, raw := range b.P {
 		a, perr := ParseAction(raw)
 		if perr != nil {
@@ -142,6 +183,7 @@ func Exec(b *Behaviour, forceUntracked bool, noScribble ...bool) (nodes []tensor
 			if e := tensor.BackPropagate(nodes[a.Node-1]); e != nil {
 				return nil, fmt.Errorf("action %d BackPropagate(%d): unexpected error: %v", i, a.Node, e)
 			}
+			observe()
 		case "reset":
 			if !forceUntracked {
 				nodes[a.Node-1].ResetGradContext(a.Tracked)
